@@ -228,7 +228,8 @@ def reconnectInclusion (evs : List Ev) (peer : String) : List String := Id.run d
                   let dist (x : Nat) := if x ≤ e.t then e.t - x else x - e.t
                   match best with | some b => if dist t < dist b then some t else some b | none => some t) none
                 match near with
-                | some t => if (if t ≤ e.t then e.t - t else t - e.t) < 50000000 then min t e.t else e.t
+                -- (only a dial close enough to be the one of THIS exit: well within one idle-hold time of the line)
+                | some t => if (if t ≤ e.t then e.t - t else t - e.t) < min 50000000 (ih / 2) then min t e.t else e.t
                 | none => e.t
               else e.t
             -- advance time to the observation (plus the tolerance), taking silent connect-retry redials that are due
